@@ -197,7 +197,7 @@ pub(crate) fn vec_with_capacity<T>(_capacity: usize) -> Vec<T> {
 // ways together with all drop glue behind it. Harnesses that need a *chosen*
 // configuration stub the accessor by a ghost constant and tie it to the real
 // field with an assumption; the accessors themselves (field or default) are
-// checked by c10_cfg_accessors.
+// checked by c10_cfg_truncate_accessor and c11_cfg_accessors.
 pub(crate) static mut CFG_READ_BUF: usize = 64;
 pub(crate) static mut CFG_TRUNCATE: bool = true;
 pub(crate) static mut CFG_MAX_RECORDS: usize = 1024 * 1024;
